@@ -494,6 +494,45 @@ def node_at(root, path, sep):
     return x
 
 
+def _path_code(ctx, x):
+    try:
+        return 1 + ctx.val(["path", x.sep, x.path_name])
+    except Exception:
+        return 1 + ctx.val(["path-error"])
+
+
+def res_paths_view(ctx, case, top, ret):
+    """(mode, observed, expected) for the result's (sep, path_name) in pre-order; None when the function has no
+    definite relation (see EffectsCorr.v ec_res_paths)"""
+    fn = case["fn"]
+    if case["cls"] == "DAGNode":
+        return None
+    if fn in ("node_copy", "deepcopy"):
+        mode = 0
+    elif fn == "prune_tree":
+        mode = 1
+    elif fn == "get_subtree" and case.get("found", 0) == 0:
+        mode = 1 if case["opts"].get("max_depth") else 0
+    elif fn in ("get_subtree", "clone_tree"):
+        mode = 2
+    else:
+        return None
+    nodes = _rt_nodes(top)
+    obs = [_path_code(ctx, x) for x in nodes]
+    exp = []
+    if mode == 2:
+        # the new root is detached / newly built: its separator is its own `_sep` (the constructor default "/",
+        # the harness sets a separator only on the input root); path names are built from the result's names
+        def rec(x, prefix):
+            pn = prefix + "/" + _name(x)
+            exp.append(1 + ctx.val(["path", "/", pn]))
+            for c in _children(x):
+                if c is not None and c is not _ERR:
+                    rec(c, pn)
+        rec(top, "")
+    return [mode, obs, exp]
+
+
 def pairs_view(ctx, case, aux):
     out = []
     for anchor, path, exact in case.get("pairs", []):
@@ -873,7 +912,7 @@ def run_impl(prop, case):
     obs = {"code": code, "kind": kind if code == 0 else "raised", "n": ctx.n, "before": before, "after": after,
            "in_lists": in_lists, "in_vals": in_vals, "out_lists": [], "out_vals": [],
            "ret_nodes": None, "result": None, "after_mr": None, "res1": None, "res2": None, "data": None,
-           "dres": None, "dres12": None, "pairs": [],
+           "dres": None, "dres12": None, "pairs": [], "res_paths": None,
            "sep_changed": getattr(nodes[0], "_sep", None) != sep_before}
     m1, m2 = case["mut_res"], case["mut_in"]
     if code != 0:
@@ -902,6 +941,8 @@ def run_impl(prop, case):
             obs["pairs"] = pairs_view(ctx, case, aux)
         view, top = result_view(ctx, value, own=(kind == "tree_own"))
         obs["result"] = view
+        if kind == "tree":
+            obs["res_paths"] = res_paths_view(ctx, case, top, value)
         obs["out_lists"], obs["out_vals"] = result_objs(ctx, top)
         side = _rt_nodes(top)
         if not any(x is value for x in side):
@@ -1079,6 +1120,11 @@ def clauses(case, obs):
         cl["indep_result_attrs"] = _dres_attrs(obs["dres12"][0]) == _dres_attrs(obs["dres12"][1])
     if obs["kind"] in ("tree", "tree_inplace", "tree_own", "data", "dag", "dag_one"):
         cl["fresh_vals"] = not (set(obs["in_vals"]) & set(obs["out_vals"]))
+    rp = obs.get("res_paths")
+    if rp is not None and rp[0] in (0, 1):
+        inp = _sig_paths(b)
+        ok = (rp[1] == inp) if rp[0] == 0 else all(x in inp for x in rp[1])
+        cl["equal_path"] = ok
     for anchor, exact, t in obs.get("pairs", []):
         ok = anchor < n and _embeds(_strip(t), _sub_rt(b, anchor), exact)
         cl["equal_part"] = cl.get("equal_part", True) and ok
@@ -1253,6 +1299,8 @@ def emit(prop, case, obs):
         "None" if obs.get("dres12") is None else f"Some ({_cdres(obs['dres12'][0])}, {_cdres(obs['dres12'][1])})",
         clist(f"({int(a)}, {cbool(ex)}, {_crt(t)})" for a, ex, t in obs.get("pairs", [])),
         cbool(case.get("expect_ok", False)),
+        ("None" if obs.get("res_paths") is None else
+         f"Some ({int(obs['res_paths'][0])}, {_cnl(obs['res_paths'][1])}, {_cnl(obs['res_paths'][2])})"),
         cbool(sep_written(case)),
     ]
     return "EC " + " ".join(f"({p})" for p in parts)
@@ -1661,9 +1709,13 @@ def gen_case(rng, fn=None, cls=None, nmax=9):
             md = rng.randint(1, 3)
         case["targets"] = tg
         if tg:
-            o["prune_path"] = [paths[j] for j in tg] if len(tg) > 1 or rng.random() < 0.5 else paths[tg[0]]
+            arg_sep = sep
+            if cls == "Node" and rng.random() < 0.4:
+                arg_sep = rng.choice([x for x in SEPS if x != sep])       # the caller writes paths with another separator
+            wr = [paths[j].replace(sep, arg_sep) for j in tg]
+            o["prune_path"] = wr if len(tg) > 1 or rng.random() < 0.5 else wr[0]
             o["exact"] = rng.random() < 0.4
-            o["sep"] = sep
+            o["sep"] = arg_sep
         if md:
             o["max_depth"] = md
     elif fn.startswith("get_tree_diff"):
@@ -2002,6 +2054,10 @@ def partial_clauses(prop):
         "(__len__ = number of children) are not generated for clone_tree, get_subtree, prune_tree, the print / yield family, "
         "tree_to_mermaid and the copy_nodes* functions: the unchanged library tests nodes for truth there (`if _child:`, "
         "`if not tree:`) and drops leaves or raises 'not found' (reported to the coordinator as a possible finding); "
+        "(j) sep / path_name of the RESULT: required equal to the input's for copy / deepcopy / prune_tree / get_subtree on "
+        "the root; for results rooted at a copy of an inner node and for clone_tree the unchanged behaviour (the new root "
+        "falls back to its own separator '/', clone_tree does not carry a non-default separator over) is recorded and "
+        "compared as agreement only; not observed for shallow copies, copy_nodes*, get_tree_diff, DAGs; "
         "(i) user subclasses with value semantics (__eq__/__hash__ by name) are generated only for one-tree functions and "
         "with names pairwise distinct over the whole tree (DESIGN section 8): with a child named like an ancestor the "
         "unchanged prune_tree keeps a child it should cut, because it tests membership in SETS of nodes - witness: "
